@@ -39,6 +39,7 @@ def strategy(tier, shard, nshards):
         {
             "rseed": st.integers(0, 2**16),
             "profile": st.just("alias" if shard % 2 else "plain"),
+            "kwx": st.just(True),
             "prefill": st.integers(2, 5),
             "presel": st.integers(0, 1).flatmap(lambda a: st.tuples(st.just(a), st.sampled_from([a, a, a, 1 - a, None]))),
             "steps": st.lists(step, min_size=8, max_size=mx).map(G.flatten),
